@@ -159,7 +159,65 @@ def drive_rpms(rng, n):
                 pass            # whatever the library raises is in the recorded outcome; the trace specification judges it
 
 
-DRIVERS = {"images": drive_images, "forest": drive_forest, "rpms": drive_rpms}
+def drive_builders(rng, n):
+    """Random Modules / ExtraFiles histories over larger pools than TLC enumerates: every UID spelling, valid and invalid
+    arguments, repeated adds, several categories per module, partial dumps with bases that are, are not, or only textually
+    prefix the stored paths."""
+    import io
+    from productmd.modules import Modules
+    from productmd.extra_files import ExtraFiles
+    names, streams = ["httpd", "postgresql", "perl-DBI", "a", "389-ds"], ["2.4", "9.6", "rolling", "f30", "1"]
+    versions, contexts = ["20180816142114", "1", "0"], ["6c81f848", "deadbeef", "x"]
+    arches = ["x86_64", "ppc64le", "aarch64", "noarch", "src", "nosrc", "bogus", "X86_64", ""]
+    variants = ["Server", "Client", "Server-optional", "a", ""]
+    mpaths = ["Server/x86_64/os/repodata/m.yaml.gz", "repodata/m.yaml", "m", "/abs/m.yaml", ""]
+    cats = ["binary", "debug", "source", "package", ""]
+    rpms = ["httpd-0:2.4.6-1.x86_64", "httpd-debuginfo-0:2.4.6-1.x86_64", "httpd-0:2.4.6-1.src", "a-1:1-1.noarch"]
+    files = ["Server/x86_64/os/GPL", "Server/x86_64/os/EULA", "Server/x86_64/os/docs/README", "Server/x86_64/osx/X", "GPL", "a/b//c", "/abs/GPL", ""]
+    bases = ["Server/x86_64/os", "Server/x86_64/os/", "Server/x86_64", "Server/x86_64/o", "", "a", "a/b", "elsewhere", "GPL"]
+    for t in range(n):
+        m, x = Modules(), ExtraFiles()
+        kept = None
+        for step in range(rng.randint(3, 25)):
+            r = rng.random()
+            try:
+                if r < 0.5:
+                    parts = [rng.choice(names), rng.choice(streams)]
+                    k = rng.random()
+                    if k < 0.6:
+                        parts += [rng.choice(versions), rng.choice(contexts)]
+                    elif k < 0.8:
+                        parts += [rng.choice(versions)]
+                    uid = ":".join(parts)
+                    k = rng.random()
+                    if k < 0.08:
+                        uid = rng.choice(["nostream", "a::b", ":a:b", "a:b:c:d:e", "a:b:"])
+                    elif k < 0.2:
+                        uid = "modules/" + uid
+                    rl = rng.sample(rpms, rng.randint(0, 3))
+                    k = rng.random()
+                    rl = tuple(rl) if k < 0.2 else ("httpd" if k < 0.25 else rl)
+                    if kept and rng.random() < 0.3:
+                        kept.append("late-0:1-1.noarch")      # the caller goes on using a list it passed earlier: no business of the manifest
+                    if isinstance(rl, list):
+                        kept = rl
+                    m.add(rng.choice(variants[:4] if rng.random() < 0.9 else variants), rng.choice(arches[:6] if rng.random() < 0.85 else arches),
+                          uid, "module-tag" if rng.random() < 0.93 else "", rng.choice(mpaths[:3] if rng.random() < 0.85 else mpaths),
+                          rng.choice(cats[:3] if rng.random() < 0.85 else cats), rl)
+                elif r < 0.85:
+                    cks = {"sha256": "%064x" % rng.getrandbits(64)}
+                    if rng.random() < 0.4:
+                        cks["md5"] = "%032x" % rng.getrandbits(64)
+                    x.add(rng.choice(variants[:4] if rng.random() < 0.9 else variants), rng.choice(arches[:6] if rng.random() < 0.85 else arches),
+                          rng.choice(files[:6] if rng.random() < 0.85 else files), rng.choice([0, 1, 18092, 2 ** 40]),
+                          cks if rng.random() < 0.93 else ["sha256"])
+                else:
+                    x.dump_for_tree(io.StringIO(), rng.choice(variants[:4]), rng.choice(arches[:4]), rng.choice(bases))
+            except Exception:
+                pass            # whatever the library raises is in the recorded outcome; the trace specification judges it
+
+
+DRIVERS = {"images": drive_images, "forest": drive_forest, "rpms": drive_rpms, "builders": drive_builders}
 
 if __name__ == "__main__":
     name, seed, n = sys.argv[1], int(sys.argv[2]), int(sys.argv[3])
